@@ -345,8 +345,10 @@ def check_C18(work, prop, tier, seed, t0):
         for j, vt in enumerate(vts):
             if q and (i + j) % 2 == 1 and vt not in ("ptr", "rich"):
                 continue
-            # strings of 1000+ characters: every dump carries sort keys of several KiB, so these histories stay short
-            n, ln = (2, 60) if (q or u == "textlong") else (6, 200)
+            # strings of 1000+ characters: every dump carries sort keys of several KiB, so these histories stay short and few
+            if u == "textlong" and vt not in ("ptr", "string"):
+                continue
+            n, ln = (2, 40) if u == "textlong" else ((2, 60) if q else (6, 200))
             jobs.append(Job("gc:%s:%s" % (k, vt), "checkptr", ["gc", "-kind", k, "-u", u, "-vt", vt, "-seed", str(seed), "-n", str(n),
                                                                "-len", str(ln)], env={"GOGC": "1"}))
     return env_check(work, prop, tier, seed, t0, jobs, TREE_INVS, model_runs,
